@@ -87,7 +87,7 @@ Print(v, po) ==
          (CASE po.kw = "octo" -> <<HASH, COLON>> \o Encode(v.s)
             [] po.kw = "prefix" -> <<COLON>> \o Encode(v.s)
             [] OTHER -> Encode(v.s) \o <<COLON>>)
-    [] v.k = "bytes" -> PrintBytes(v.b, po)
+    [] v.k = "bytes" -> PrintBytes(v.bv, po)
     [] v.k = "cons" -> <<LP>> \o Print(v.car, po) \o PrintTail(v.cdr, po) \o <<RP>>
     [] OTHER ->     \* vec
          (IF po.vec = "octo" THEN <<HASH, LP>> ELSE <<LB>>)
